@@ -307,6 +307,12 @@ class SSHChannel(Generic[AnyStr], SSHPacketHandler):
 
         while self._send_buf and self._send_window:
             pktsize = min(self._send_window, self._send_pktsize)
+
+            if pktsize <= 0:
+                # No data can be sent to a peer which advertised a
+                # maximum packet size of zero
+                break
+
             buf, datatype = self._send_buf[0]
 
             if len(buf) > pktsize:
